@@ -139,6 +139,10 @@ def moveItems (from_ to : Name) (rows : List Row) (env : EnvRecs) : List Hdr × 
       pax := (paxV1 r.hdr.pax recSTFSRecordActionUpdate).set recSTFSRecordReplacesName r.name })
   (hs, hs.zipIdx.map (fun (h, i) => Item.recd h (envAt env i 0).1 0 []))
 
+/-- "prevent moving from relative to absolute path" -/
+def moveTarget (rowName to : Name) : Name :=
+  if isAbs to && !isAbs rowName then trimPrefix to [slash] else to
+
 def move (c : Cfg) (w : World) (from_ to : Name) (env : EnvRecs) : World × Option Err :=
   if from_ == to then (w, none) else       -- ignored before any lock is taken
   if w.stuck then (w, some .stuck) else
@@ -146,7 +150,7 @@ def move (c : Cfg) (w : World) (from_ to : Name) (env : EnvRecs) : World × Opti
   match lookupForWrite w.idx from_ with
   | (p, .error e) => ({ w with idx := p, stuck := true }, some e)
   | (p, .ok r) =>
-    let to := if isAbs to && !isAbs r.name then trimPrefix to [slash] else to
+    let to := moveTarget r.name to
     if from_ == to then ({ w with idx := p, stuck := true }, none) else   -- returns nil with the writer open
     let (p, children) := if r.hdr.typeflag == tfDir then p.getHeaderChildren from_ else (p, [])
     let (hdrs, its) := moveItems from_ to (r :: children) env
